@@ -69,5 +69,35 @@ func factsSig() {
 	emitStr("ethSigVerifyShape", sv, "EthSigVerificationDecorator.AnteHandle: signer, protection check, sender recovery")
 }
 
+// what the contract-creation branch of ApplyMessageWithConfig does to the sender's nonce after evm.Create
+func init() { moreFacts = append(moreFacts, factsCreateNonce) }
+
+func factsCreateNonce() {
+	v := "unrecognised"
+	if fd := funcDecl("x/evm/keeper/state_transition.go", "Keeper", "ApplyMessageWithConfig"); fd != nil {
+		ast.Inspect(fd.Body, func(n ast.Node) bool {
+			ifs, ok := n.(*ast.IfStmt)
+			if !ok || strings.TrimSpace(src(ifs.Cond)) != "contractCreation" {
+				return true
+			}
+			var st []string
+			for _, x := range ifs.Body.List {
+				st = append(st, strings.Join(strings.Fields(src(x)), " "))
+			}
+			j := strings.Join(st, " ; ")
+			switch {
+			case len(st) == 6 && st[0] == "nonceOnEntry := stateDB.GetNonce(sender.Address())" && st[1] == "stateDB.SetNonce(sender.Address(), msg.Nonce())" &&
+				strings.Contains(st[2], "evm.Create(sender,") && st[3] == "nonceAfter := msg.Nonce() + 1" &&
+				st[4] == "if nonceOnEntry > nonceAfter { nonceAfter = nonceOnEntry }" && st[5] == "stateDB.SetNonce(sender.Address(), nonceAfter)":
+				v = "max(nonce on entry, msg.Nonce()+1)"
+			case strings.HasSuffix(j, "stateDB.SetNonce(sender.Address(), msg.Nonce()+1)"):
+				v = "msg.Nonce()+1"
+			}
+			return false
+		})
+	}
+	emitStr("evmCreateNonceAfter", v, "ApplyMessageWithConfig, contract creation: the sender's nonce after evm.Create")
+}
+
 func isAssign(n ast.Stmt) bool { _, ok := n.(*ast.AssignStmt); return ok }
 func isIf(n ast.Stmt) bool     { _, ok := n.(*ast.IfStmt); return ok }
